@@ -192,8 +192,14 @@ func (d *Decoder) LoadParityData() error {
 	// TODO: Support searching for volume data without relying on
 	// filenames.
 
-	// TODO: Count only files saved in volume set.
-	fileCount := d.indexVolume.header.FileCount
+	// Only the files saved in the volume set count against the
+	// limit of 256 files plus parity volumes.
+	var fileCount uint64
+	for _, entry := range d.indexVolume.entries {
+		if entry.header.Status.savedInVolumeSet() {
+			fileCount++
+		}
+	}
 	maxParityVolumeCount := 256 - fileCount
 	// TODO: Support more than 99 parity volumes.
 	if maxParityVolumeCount > 99 {
